@@ -133,6 +133,9 @@ struct Unit {
     w: usize,
     n: usize,
     bound: Option<usize>,
+    /// (k, of): this unit explores only the k-th share of the first-level subtrees of a bounded
+    /// search that is split over `of` units (share 0 also checks the default execution)
+    part: Option<(usize, usize)>,
 }
 
 fn units(run: &Run) -> Vec<Unit> {
@@ -141,19 +144,30 @@ fn units(run: &Run) -> Vec<Unit> {
     // explicit-state full search (no preemption bound): cheap, so it goes furthest
     for w in 0..=3usize {
         for n in 0..=(if quick { 3 } else { 6 }) {
-            u.push(Unit { mode: "states", w, n, bound: None });
+            u.push(Unit { mode: "states", w, n, bound: None, part: None });
         }
     }
     if !quick {
         for n in 0..=4 {
-            u.push(Unit { mode: "states", w: 4, n, bound: None });
+            u.push(Unit { mode: "states", w: 4, n, bound: None, part: None });
         }
         for n in 0..=2 {
-            u.push(Unit { mode: "states", w: 5, n, bound: None });
+            u.push(Unit { mode: "states", w: 5, n, bound: None, part: None });
         }
     }
     // stateless preemption-bounded cross-check (merges nothing; grows fast with the bound)
-    let mut bounded = |w: usize, n: usize, bound: usize| u.push(Unit { mode: "bounded", w, n, bound: Some(bound) });
+    let mut split = |w: usize, n: usize, bound: usize, of: usize| {
+        for k in 0..of {
+            u.push(Unit { mode: "bounded", w, n, bound: Some(bound), part: if of > 1 { Some((k, of)) } else { None } });
+        }
+    };
+    if !quick {
+        // the large bounded searches, split over several units by first-level subtree
+        split(3, 3, 3, 16);
+        split(2, 4, 4, 8);
+        split(3, 4, 2, 8);
+    }
+    let mut bounded = |w: usize, n: usize, bound: usize| u.push(Unit { mode: "bounded", w, n, bound: Some(bound), part: None });
     if quick {
         for n in 1..=3 {
             bounded(1, n, 3);
@@ -173,7 +187,6 @@ fn units(run: &Run) -> Vec<Unit> {
         }
         bounded(3, 1, 3);
         bounded(3, 2, 3);
-        bounded(3, 4, 1);
         bounded(4, 2, 1);
     }
     u
@@ -196,7 +209,7 @@ fn main() {
     let us = units(&run);
     if let Some(n) = run.describe_unit() {
         let u = &us[n as usize];
-        println!("{}", json!({"mode": u.mode, "workers": u.w, "items": u.n, "bound": u.bound}));
+        println!("{}", json!({"mode": u.mode, "workers": u.w, "items": u.n, "bound": u.bound, "part": u.part}));
         return;
     }
     run.bounds.insert("explicit_state".into(), json!("all interleavings (no preemption bound) for every listed (workers, items)"));
@@ -224,14 +237,24 @@ fn main() {
         };
         let ck = |x: &Exec<Vec<usize>>, _p: &[usize]| unsafe { check(&mut *runp, mode, w, n, bound, x, &*lc) };
         let deadline = run.deadline();
-        let stats = match u.bound {
-            None => sched::explore_states(deadline, vec![vec![]], 5_000_000, ex, ck),
-            Some(b) => sched::explore_bounded(b, deadline, vec![vec![]], ex, ck),
+        let mut ex = ex;
+        let mut ck = ck;
+        let stats = match (u.bound, u.part) {
+            (None, _) => sched::explore_states(deadline, vec![vec![]], 5_000_000, ex, ck),
+            (Some(b), None) => sched::explore_bounded(b, deadline, vec![vec![]], ex, ck),
+            (Some(b), Some((k, of))) => {
+                let (x0, children) = sched::first_level_roots(b, &mut ex);
+                if k == 0 {
+                    ck(&x0, &[]);
+                }
+                let mine: Vec<Vec<usize>> = children.into_iter().enumerate().filter(|(i, _)| i % of == k).map(|(_, c)| c).collect();
+                sched::explore_bounded(b, deadline, mine, ex, ck)
+            }
         };
         run.count_n(&format!("{}:executions", u.mode), stats.executions);
         run.count_n("states", stats.states);
         run.count_n("transitions", stats.transitions);
-        per_unit.push(json!({"mode": u.mode, "workers": w, "items": n, "bound": bound, "executions": stats.executions, "states": stats.states,
+        per_unit.push(json!({"mode": u.mode, "workers": w, "items": n, "bound": bound, "part": u.part, "executions": stats.executions, "states": stats.states,
             "transitions": stats.transitions, "terminal_states": stats.terminal_states, "max_depth": stats.max_depth,
             "max_preemptions_in_a_schedule": stats.max_preemptions_seen, "completed": !stats.stopped_early}));
         if stats.stopped_early && run.num_violations() == 0 {
